@@ -974,38 +974,47 @@ def _json_same(a, b, path="result"):
     return None if a == b else f"{path}: {a} vs {b}"
 
 
+def _open_dicts(v, out, seen):
+    if id(v) in seen:
+        return
+    seen.add(id(v))
+    if isinstance(v, sp.V):
+        v = v.v
+    if isinstance(v, OpenDict):
+        out.append(v)
+        for x in v.entries.values():
+            _open_dicts(x, out, seen)
+    elif isinstance(v, dict):
+        for x in v.values():
+            _open_dicts(x, out, seen)
+    elif isinstance(v, (list, tuple)):
+        for x in v:
+            _open_dicts(x, out, seen)
+    elif isinstance(v, Obj):
+        for x in v.attrs.values():
+            _open_dicts(x, out, seen)
+
+
 def differential(contract, I, model, repo):
     """-> (verdict, detail): 'agree' | 'differ' | 'skipped'.  The same concrete inputs are run through the
     interpreter (exact rational arithmetic) and through CPython; outcomes, results and argument post-states must
-    agree to 1e-9 relative.  A difference is an ENGINE defect (or a float-threshold coincidence), never a finding."""
+    agree to 1e-9 relative.  A difference is an ENGINE defect (or a float-threshold coincidence), never a finding.
+    Inputs are built twice from the same model: the interpreter runs on the first copy (which also discovers which keys
+    of open dictionaries the code reads); the second copy, with those keys filled in, is what CPython receives."""
     if contract.summaries or contract.loops or not contract.replayable:
         return "skipped", "contract uses summaries / loop contracts or is not natively callable"
     try:
-        ctx = Ctx(I, [])
-        I.new_path(ctx)
-        I.loop_specs, I.summaries = {}, {}
-        S = sp.Spec(ctx, I, model=model)
         sp.TOL[0] = (Fraction(1, 10 ** 9), Fraction(0))
         try:
+            # --- interpreter, concrete
+            ctx = Ctx(I, [])
+            I.new_path(ctx)
+            I.loop_specs, I.summaries = {}, {}
+            S = sp.Spec(ctx, I, model=model)
             a = contract.inputs(S)
             contract.setup(I, S, a)
             if getattr(contract, "summaries", None) or getattr(contract, "loops", None):
                 return "skipped", "inputs() installed summaries"
-            memo = {}
-            req = {"repo": repo, "file": contract.file, "func": contract.func,
-                   "args": [enc(x, memo) for x in a.get("args", [])],
-                   "kwargs": {k: enc(v, memo) for k, v in a.get("kwargs", {}).items()},
-                   "class_state": [[f, c, at, enc(v, memo)] for (f, c, at, v) in list(contract.class_state(S, a)) + _class_objects(I)],
-                   "np_floats": bool(contract.np_floats)}
-            if "calls" in a:
-                req["calls"] = [{"file": c.get("file", contract.file), "func": c["func"],
-                                 "args": [enc(x, memo) for x in c.get("args", [])],
-                                 "kwargs": {k: enc(v, memo) for k, v in c.get("kwargs", {}).items()}} for c in a["calls"]]
-            p = subprocess.run([VENV_PY, os.path.join(HERE, "native_runner.py")], input=json.dumps(req), capture_output=True, text=True,
-                               cwd=repo, timeout=300)
-            if p.returncode != 0:
-                return "skipped", "native runner error: " + p.stderr[-300:]
-            resp = json.loads(p.stdout.splitlines()[-1])
             ctx.np_floats = bool(contract.np_floats)
             ops.NP_FLOATS[0] = ctx.np_floats
             try:
@@ -1015,8 +1024,42 @@ def differential(contract, I, model, repo):
                 mine = {"outcome": "raise", "exc": e.exc.cls_name}
             except ops.PyRaise as pr:
                 mine = {"outcome": "raise", "exc": pr.cls_name}
+            ods = []
+            _open_dicts([a.get("args", []), a.get("kwargs", {}), [c.get("args", []) for c in a.get("calls", [])]], ods, set())
+            read_keys = {}
+            for od in ods:
+                read_keys.setdefault(od.name, set()).update(od.entries.keys())
+            # --- CPython, on a second copy of the same inputs
+            I2 = Interp(repo)
+            ctx2 = Ctx(I2, [])
+            I2.new_path(ctx2)
+            I2.loop_specs, I2.summaries = {}, {}
+            S2 = sp.Spec(ctx2, I2, model=model)
+            a2 = contract.inputs(S2)
+            contract.setup(I2, S2, a2)
+            ods2 = []
+            _open_dicts([a2.get("args", []), a2.get("kwargs", {}), [c.get("args", []) for c in a2.get("calls", [])]], ods2, set())
+            for od in ods2:
+                for k in read_keys.get(od.name, ()):
+                    if k not in od.entries and od.default is not None and not od.closed and k not in od.deleted:
+                        od.entries[k] = od.default(k)
+            memo = {}
+            req = {"repo": repo, "file": contract.file, "func": contract.func,
+                   "args": [enc(x, memo) for x in a2.get("args", [])],
+                   "kwargs": {k: enc(v, memo) for k, v in a2.get("kwargs", {}).items()},
+                   "class_state": [[f, c, at, enc(v, memo)] for (f, c, at, v) in list(contract.class_state(S2, a2)) + _class_objects(I2)],
+                   "np_floats": bool(contract.np_floats)}
+            if "calls" in a2:
+                req["calls"] = [{"file": c.get("file", contract.file), "func": c["func"],
+                                 "args": [enc(x, memo) for x in c.get("args", [])],
+                                 "kwargs": {k: enc(v, memo) for k, v in c.get("kwargs", {}).items()}} for c in a2["calls"]]
+            p = subprocess.run([VENV_PY, os.path.join(HERE, "native_runner.py")], input=json.dumps(req), capture_output=True, text=True,
+                               cwd=repo, timeout=300)
+            if p.returncode != 0:
+                return "skipped", "native runner error: " + p.stderr[-300:]
+            resp = json.loads(p.stdout.splitlines()[-1])
             if mine["outcome"] != resp["outcome"]:
-                return "differ", f"outcome {mine['outcome']}:{mine.get('exc', '')} vs native {resp['outcome']}:{resp.get('exc', '')}"
+                return "differ", f"outcome {mine['outcome']}:{mine.get('exc', '')} vs native {resp['outcome']}:{resp.get('exc', '')} {str(resp.get('msg', ''))[:80]}"
             if mine["outcome"] == "raise":
                 return ("agree", "") if mine["exc"] == resp.get("exc") else ("differ", f"exception {mine['exc']} vs native {resp.get('exc')}")
             d = _json_same(mine["result"], resp["result"])
